@@ -10,7 +10,7 @@ LEVEL = "model_checking"
 FUNCTIONS = [("pandapower.auxiliary", "sequence_to_phase"), ("pandapower.auxiliary", "phase_to_sequence"),
              ("pandapower.results_bus", "_get_p_q_results_3ph"), ("pandapower.results_bus", "write_pq_results_to_element_3ph"),
              ("pandapower.results_bus", "write_pq_results_to_element"), ("pandapower.pf.runpp_3ph", "_load_mapping"),
-             ("pandapower.pf.runpp_3ph", "_get_elements"), ("pandapower.auxiliary", "_sum_by_group")]
+             ("pandapower.pf.runpp_3ph", "_get_elements"), ("pandapower.auxiliary", "_sum_by_group"), ("pandapower.build_branch", "_calc_y_from_dataframe")]
 STUBS = ["the module constants a = exp(j 120 deg), a^2 are the module's own floating point values, read exactly; claims that pass through them carry a 1e-9 tolerance"]
 ASSUMPTIONS = ["sequence / phase quantities symbolic in rectangular form with |re|,|im| <= 2; element powers symbolic; scaling in [0.1, 2]"]
 OUTSIDE = ["the sequence-network iteration of runpp_3ph", "zero-sequence network building (pd2ppc_zero)", "branch results in phase quantities"]
@@ -159,9 +159,30 @@ def make_load_mapping():
     return fn
 
 
+def make_trafo_magnetising():
+    """the no-load branch of a transformer in the three-phase (per-phase) model is the symmetric one scaled by one real factor: conductance
+    and susceptance keep their ratio (otherwise a symmetric network gives different voltages in runpp_3ph and runpp)"""
+    def fn(ctx):
+        bb = ctx.load("pandapower.build_branch")
+        sn_t = ctx.var("sn_mva", 0.1, 100.)
+        i0, nn = ctx.var("i0_percent", 0.05, 3.), ctx.var("n_pfe", 0.05, 0.95)
+        pfe = i0 / 100 * sn_t * (1 - nn * nn) / (1 + nn * nn) * 1000           # pfe < i0/100*sn: a real magnetising reactance exists
+        vn_lv, vn_bus = ctx.var("vn_lv_kv", 0.3, 40.), ctx.var("vn_lv_bus_kv", 0.3, 40.)
+        net_sn = ctx.var("net_sn_mva", 0.1, 100.)
+        df = {"vn_lv_kv": ctx.array([vn_lv]), "pfe_kw": ctx.array([pfe]), "parallel": ctx.array([ctx.var("parallel", 1., 3.)]),
+              "sn_mva": ctx.array([sn_t]), "i0_percent": ctx.array([i0])}
+        tap = ctx.var("lv_tap_ratio", 0.9, 1.1)
+        g1, b1 = bb._calc_y_from_dataframe("pf", dict(df), ctx.array([vn_bus]), ctx.array([vn_lv * tap]), net_sn)
+        g3, b3 = bb._calc_y_from_dataframe("pf_3ph", dict(df), ctx.array([vn_bus]), ctx.array([vn_lv * tap]), net_sn)
+        ctx.eq("magnetising_branch_keeps_its_g_to_b_ratio_in_the_three_phase_model", g3[0] * b1[0], g1[0] * b3[0])
+        ctx.true("susceptance_is_inductive_in_both_models", (b1[0] < 0) & (b3[0] < 0))
+    return fn
+
+
 def instances(tier):
     return [Inst("sequence_phase_transform", make_transform(), nvars=16, samples=3, meta=dict(part="transformations")),
             Inst("phase_power_bookkeeping", make_bookkeeping(), nvars=48, samples=2, meta=dict(part="per-phase results")),
+            Inst("trafo_magnetising_branch_3ph", make_trafo_magnetising(), nvars=16, samples=3, meta=dict(part="transformer no-load branch: pf_3ph vs pf")),
             Inst("solver_load_mapping", make_load_mapping(), nvars=48, samples=2, meta=dict(part="per-phase injections of the solver vs reported bus powers"))]
 
 
